@@ -84,6 +84,7 @@ class Normalizer:
         if p and p[0][0] == "S" and isinstance(p[0][1], str):
             name = p[0][1]
             base = name[2:] if name.startswith("m:") else name
+            base = self._unwrap_name(base)
             for k, (callee, args) in self.ret_info.items():
                 if base == k or base.startswith(k + "@") or base.startswith(k + "."):
                     return "*{%s%s}%s" % (self.call_atom(callee, args), base[len(k):], absint.pstr(p[1:]))
@@ -95,7 +96,7 @@ class Normalizer:
         m = re.match(r"(tryok|unwrap):(\d+)(.*)$", name)
         if m and hasattr(self.it, "unwrap_src"):
             src = self.it.unwrap_src.get("%s:%s" % (m.group(1), m.group(2)))
-            if src is not None and src[0] == "sym" and m.group(3):
+            if src is not None and src[0] == "sym":
                 return "%s@Ok.0%s" % (src[1], m.group(3))
         return name
 
